@@ -367,3 +367,59 @@ def run(chk, repo, tier):
                       witness='an expression of two parameters whose order in the covariance matrix is not the order of the '
                               'gradient list (THETA before OMEGA vs alphabetical): sqrt(g\' C g) pairs gradient components '
                               'with the wrong rows')
+    run_more(chk, repo)
+
+
+def run_more(chk, repo):
+    N6 = chk.rule('N6', 'rank_models: the reference model that selects the LRT cut-off (forward/backward) is the one the '
+                        'test is run against', floor=3)
+    N7 = chk.rule('N7', 'mixed BIC categories: what is removed from the fixed group is what is added to the random group',
+                  floor=2)
+    rm = repo.module('pharmpy.tools.run')
+    f = rm.functions.get('rank_models')
+    if f is None:
+        raise AnalysisError('rank_models not found')
+    refs = {}
+    for c in calls_in(f.node):
+        fn = dotted(c.func) or ''
+        if fn in ('lrt_df', 'lrt_test', 'lrt_p_value') and len(c.args) >= 2:
+            refs.setdefault((unparse(c.args[0]), unparse(c.args[1])), []).append(c)
+    if sum(len(v) for v in refs.values()) < 2 or not any(dotted(c.func) == 'lrt_test' for v in refs.values() for c in v):
+        raise AnalysisError(f'N6: LRT calls of rank_models not recognised ({list(refs)})')
+    for (a, b), cs in sorted(refs.items()):
+        chk.instance(N6, f'rank_models: {len(cs)} LRT call(s) on ({a}, {b})', n=len(cs))
+    if len(refs) > 1:
+        main = max(refs, key=lambda k: any(dotted(c.func) == 'lrt_test' for c in refs[k]))
+        for k, cs in refs.items():
+            if k != main:
+                chk.violation(N6, rm.rel, 'rank_models', f'{unparse(cs[0])} vs test on {main}',
+                              f'the direction (added or removed parameters) is taken from the pair {k} but the likelihood '
+                              f'ratio test compares {main}', line=cs[0].lineno,
+                              witness='base 6, parent 8, child 7 parameters and a dOFV between the two cut-offs: the backward step '
+                                      'is judged with the forward p-value')
+    mm = repo.module('pharmpy.modeling.results')
+    g = mm.functions.get('_categorize_parameters')
+    if g is None:
+        raise AnalysisError('_categorize_parameters not found')
+    n7 = 0
+    for blk in [n for n in ast.walk(g.node) if isinstance(n, ast.If)]:
+        for body in (blk.body, blk.orelse):
+            subs_ = [s_ for s_ in body if isinstance(s_, ast.AugAssign) and isinstance(s_.op, ast.Sub)
+                     and isinstance(s_.target, ast.Name)]
+            adds = [s_ for s_ in body if isinstance(s_, ast.AugAssign) and isinstance(s_.op, ast.BitOr)
+                    and isinstance(s_.target, ast.Name)]
+            for s1 in subs_:
+                for s2 in adds:
+                    if s1.target.id == s2.target.id:
+                        continue
+                    n7 += 1
+                    ok = unparse(s1.value) == unparse(s2.value)
+                    chk.instance(N7, f'{unparse(s1)} ; {unparse(s2)}: same set {ok}')
+                    if not ok:
+                        chk.violation(N7, mm.rel, g.name, f'{unparse(s1)} ; {unparse(s2)}',
+                                      'a parameter that leaves the fixed group must enter the random group, otherwise it is '
+                                      'counted in neither penalty term of the mixed BIC', line=s1.lineno,
+                                      witness='a model with IIV on the residual error (eta and epsilon in Y): the sigma is not '
+                                              'counted, BIC(mixed) is too low by log(n_individuals)')
+    if n7 < 2:
+        raise AnalysisError(f'N7: only {n7} move(s) between the groups recognised')
